@@ -7,6 +7,6 @@ require (
 	github.com/minio/simdjson-go v0.0.0
 )
 
-require github.com/klauspost/compress v1.18.0 // indirect
+require github.com/klauspost/compress v1.18.0
 
 replace github.com/minio/simdjson-go => /repo
